@@ -110,6 +110,44 @@ theorem frame_roundtrip (P : Params) (hP : P.Wf) (d rest : Bytes) (h : d.length 
     have : ¬ (d.length + rest.length < d.length) := by omega
     simp [this]
 
+/-- Pipelining: any number of frames written one after the other are read back one after the other, exactly,
+    and then the stream is at its end (reported as an I/O error by `read_exact`). -/
+theorem frames_roundtrip (P : Params) (hP : P.Wf) (ds : List Bytes) (h : ∀ d ∈ ds, d.length ≤ P.maxMessageSize) :
+    readAll P ((ds.map (fun d => le32 d.length ++ d)).flatten) = (ds, .io) := by
+  have gen : ∀ (ds : List Bytes) (fuel : Nat), (∀ d ∈ ds, d.length ≤ P.maxMessageSize) → ds.length < fuel →
+      readAllFuel P fuel ((ds.map (fun d => le32 d.length ++ d)).flatten) = (ds, .io) := by
+    intro ds
+    induction ds with
+    | nil =>
+      intro fuel _ hf
+      cases fuel with
+      | zero => omega
+      | succ n => simp [readAllFuel, readMessage, take32]
+    | cons d ds ih =>
+      intro fuel hd hf
+      cases fuel with
+      | zero => omega
+      | succ n =>
+        have hdl := hd d (by simp)
+        have hrm : readMessage P ((le32 d.length ++ d) ++ ((ds.map (fun d => le32 d.length ++ d)).flatten))
+            = .ok (d, (ds.map (fun d => le32 d.length ++ d)).flatten) := by
+          obtain ⟨f, hf1, hf2⟩ := frame_roundtrip P hP d ((ds.map (fun d => le32 d.length ++ d)).flatten) hdl
+          simp [writeMessage, Nat.not_lt.mpr hdl] at hf1
+          subst hf1
+          exact hf2
+        simp only [List.map_cons, List.flatten_cons, readAllFuel, hrm]
+        rw [ih n (fun x hx => hd x (by simp [hx])) (by simp at hf; omega)]
+  unfold readAll
+  apply gen ds _ h
+  have : ds.length ≤ ((ds.map (fun d => le32 d.length ++ d)).flatten).length := by
+    induction ds with
+    | nil => simp
+    | cons d ds ih =>
+      simp only [List.map_cons, List.flatten_cons, List.length_append, List.length_cons, le32_length]
+      have := ih (fun x hx => h x (by simp [hx]))
+      omega
+  omega
+
 /-- Oversized frames are refused on both sides, before any buffer is allocated. -/
 theorem frame_rejects_oversize (P : Params) (d : Bytes) (h : d.length > P.maxMessageSize) :
     writeMessage P d = .error .tooLarge := by
